@@ -297,31 +297,51 @@ impl Pattern {
      * Implement csh-style alternate matches.  Pattern::new() has already
      * verified that the pattern is valid and the braces are correctly balanced.
      *
-     * The right-most opening brace and the first closing brace that follows
-     * it always delimit an innermost group.  Each of its alternatives is
-     * substituted in turn and Pattern is called recursively on the result,
-     * which expands the remaining groups in the same way, so every string of
-     * the expansion is tried exactly once.
+     * The left-most opening brace and its matching closing brace delimit an
+     * outermost group.  Each of its alternatives (separated by the commas at
+     * the group's own depth) is substituted in turn and Pattern is called
+     * recursively on the result, which expands the remaining and the nested
+     * groups in the same way.  Every string of the expansion is tried exactly
+     * once, so the cost is proportional to the size of the expansion even
+     * when groups are nested inside alternatives.
      */
     fn alternate_match(pattern: &str, pkg: &str) -> bool {
         /* These shouldn't fail as new() already verified, but... */
-        let Some(i) = pattern.rfind('{') else {
+        let Some(open) = pattern.find('{') else {
             return false;
         };
-        let (first, rest) = pattern.split_at(i);
-        let Some(n) = rest.find('}') else {
+        let mut depth = 0;
+        let mut close = None;
+        let mut commas = vec![];
+        for (i, ch) in pattern[open..].char_indices() {
+            match ch {
+                '{' => depth += 1,
+                '}' => {
+                    depth -= 1;
+                    if depth == 0 {
+                        close = Some(open + i);
+                        break;
+                    }
+                }
+                ',' if depth == 1 => commas.push(open + i),
+                _ => {}
+            }
+        }
+        let Some(close) = close else {
             return false;
         };
-        let (matches, last) = rest.split_at(n + 1);
-        let matches = &matches[1..matches.len() - 1];
+        let first = &pattern[..open];
+        let last = &pattern[close + 1..];
 
-        for m in matches.split(',') {
-            let fmt = format!("{}{}{}", first, m, last);
+        let mut start = open + 1;
+        for end in commas.into_iter().chain(std::iter::once(close)) {
+            let fmt = format!("{}{}{}", first, &pattern[start..end], last);
             if let Ok(pat) = Pattern::new(&fmt) {
                 if pat.matches(pkg) {
                     return true;
                 }
             }
+            start = end + 1;
         }
         false
     }
